@@ -2,6 +2,11 @@
 """writes MANIFEST.json from the table below (keeps it valid and in one place)"""
 import json, os
 CHECKS = {
+ 'C14': dict(technique='case-label dataflow of option numbers into the outer/inner PDU roles against the RFC 8613 Figure 5 table, tested-result gating of the decrypt call (R-OSC-SPLIT)',
+             text='Decides two clauses of C14: the outer/inner option split (no class E option reaches the unprotected PDU; unnamed options go inner) and that no '
+                  'message is accepted unless cose_encrypt0_decrypt returned > 0. Byte equality with an independent RFC 8613 implementation and the round trip '
+                  'are not decided.',
+             design='6 C14'),
  'C19': dict(technique='who-may-call plus path-fact gating at the call sites, single-writer rule on the established flag under the GNUTLS_E_SUCCESS case label (R-ROUTE)',
              text='Decides the routing/gating clauses of C19: cleartext processing only for UDP or inside an established TLS record read, established only on '
                   'handshake success, session-connected and record I/O only afterwards, transmission only in state ESTABLISHED. Credential acceptance (inside '
